@@ -882,9 +882,9 @@ class SimpleShape(DefinedShape):
                 return False
         inters = jordan & self.jordans[0]
         uvals = {}
+        for a in range(len(jordan.segments)):
+            uvals[a] = {0, 1}
         for a, _, u, _ in inters:
-            if a not in uvals:
-                uvals[a] = set()
             uvals[a].add(u)
         for a, us in uvals.items():
             us = sorted(us)
